@@ -365,6 +365,26 @@ func init() {
 	}
 	seqlock("bip68-height-lock-unmet", ClsConnect, 1)
 	seqlock("bip68-height-lock-met", ClsValid, 0)
+	// the same unmet relative lock is not a rule before the CSV deployment is
+	// active: the verdict must flip exactly at activation
+	reg(&mutation{name: "bip68-unmet-before-csv-activation", class: ClsValid, txs: func(bp *blockPlan) bool {
+		if bp.csv {
+			return false
+		}
+		for _, op := range bp.candidates() {
+			rec, ok := bp.view[op]
+			if !ok {
+				continue
+			}
+			n := bp.height - rec.Height + 1
+			if n <= 0 || n > 0xffff {
+				continue
+			}
+			bp.simpleSpend(op, rec, 0, func(p *txPlan) { p.Version = 2; p.Ins[0].Seq = uint32(n) })
+			return true
+		}
+		return false
+	}})
 	_ = chaincfg.DeploymentCSV
 }
 
